@@ -14,7 +14,11 @@ model and parameter value (an exception there is a violation; for biased-Y-X a f
 when it is exactly the outcome of the pinned closed forms, see yx_pinned); and object-reuse HISTORIES -- live objects
 swept over many p with attributes read in between in every order, repeated p, pools of several live objects, returned
 mutable values overwritten -- every answer checked like a fresh one against the pure model (the object model and its
-history-independence theorem are in ErrorModels/DistEnds.v), attributes required to stay the documented values.
+history-independence theorem are in ErrorModels/DistEnds.v), attributes required to stay the documented values; and
+CALLER-OWNED CONSTRUCTOR ARGUMENTS -- the limit in every accepted container (tuple, list, float64 / int64 / float32
+ndarray, already normalised or not), refilled by the caller after construction and between calls, several objects built
+from one reused buffer -- every answer checked against the model on the values at construction time (snapshot
+semantics, DistEnds.v section World) and the caller's object required untouched.
 A sample is re-checked inside Coq (vm_compute) with the verified checkers valid_dist / close_dist."""
 import json
 import math
@@ -26,6 +30,7 @@ from harness.common import exc_class
 T50 = F(1, 2 ** 50)
 T44 = F(1, 2 ** 44)   # biased-Y-X only: sqrt closed forms, conditioning ~ 1/bias
 REL = F(1, 10 ** 9)
+REL32 = F(1, 2 ** 20)  # limits handed over in a float32 array only: NumPy keeps normalisation and pos*lim in binary32
 TINY = F(1, 2 ** 1070)
 LET = 'IXYZ'
 
@@ -79,12 +84,12 @@ def isqrt_frac(x, bits):
     return F(math.isqrt((x.numerator << (2 * bits)) // x.denominator), 1 << bits)
 
 
-def close(p, impl, model):
-    return abs(impl - model) <= REL * abs(model) + T50 * p + TINY
+def close(p, impl, model, rel=REL):
+    return abs(impl - model) <= rel * abs(model) + T50 * p + TINY
 
 
-def close_dist(p, impl, model, t=T50):
-    return abs(impl[0] - model[0]) <= t and all(close(p, impl[i], model[i]) for i in (1, 2, 3))
+def close_dist(p, impl, model, t=T50, rel=REL):
+    return abs(impl[0] - model[0]) <= t and all(close(p, impl[i], model[i], rel) for i in (1, 2, 3))
 
 
 def pynum_tok(v):
@@ -158,7 +163,10 @@ class Hist:
         self.ops = []
 
     def snap(self):
-        return {'instances': self.specs, 'ops': [list(o) for o in self.ops], 'failing_op': len(self.ops) - 1}
+        out = {'instances': list(self.specs), 'ops': [list(o) for o in self.ops], 'failing_op': len(self.ops) - 1}
+        if getattr(self, 'buffers', None) is not None:
+            out['buffers'] = self.buffers      # caller-owned argument objects (see run_arg_history)
+        return out
 
 
 def with_hist(rep, hist):
@@ -187,7 +195,12 @@ def run(ctx):
                 'exactly the outcome of the pinned closed forms); object-reuse histories: one live object swept over many p '
                 '(every model, every grid parameter) and random histories over pools of 1-3 live objects, attributes read '
                 'in between in every order, repeated p, returned mutable values overwritten, every answer checked like a '
-                'fresh one and attributes required unchanged; '
+                'fresh one and attributes required unchanged; constructor arguments owned by the caller: the slice limit '
+                'passed as tuple / list / float64, int64, float32 ndarray (summing to exactly 1 or not), pos and bias as '
+                'float / np.float64 / int, the caller overwriting or refilling its argument object after construction and '
+                'between calls, 2-5 objects built from one or two reused buffers with answers read in between or only at '
+                'the end: every answer and attribute is checked against the model on the values held at construction '
+                'time, and the argument object must never be written by the implementation; '
                 'bias log-uniform in [1e-6,1e12] (biased-depolarizing, all axes, both cases) and in [1e-2,1e2] plus 0 '
                 '(Y-X healthy region, p in [0.01,0.99]) with the cancellation region (F3) swept separately; slice '
                 'limits with one or two zeros, pos in [-1,1] incl. 0, +-1, +-1e-12; constructor stream (negative / nan / '
@@ -288,15 +301,15 @@ def run(ctx):
                     k = keys['neg']
                 viol(k, 'Pr(%s) < 0' % LET[i], rep)
         if abs(sum(fd) - 1) > t:
-            viol(keys.get('acc', 'sum-not-1'), '|sum - 1| > 2^%d' % (-50 if t == T50 else -44), rep)
+            viol(keys.get('acc', 'sum-not-1'), '|sum - 1| > 2^%d' % (1 - t.denominator.bit_length()), rep)
         if abs(fd[0] - (1 - pf)) > t:
-            viol(keys.get('acc', 'pI-not-1-p'), '|Pr(I) - (1-p)| > 2^%d' % (-50 if t == T50 else -44), rep)
+            viol(keys.get('acc', 'pI-not-1-p'), '|Pr(I) - (1-p)| > 2^%d' % (1 - t.denominator.bit_length()), rep)
         return fd
 
-    def relclose(a, b, p):
-        return abs(a - b) <= REL * abs(b) + T50 * p + TINY
+    def relclose(a, b, p, rel=REL):
+        return abs(a - b) <= rel * abs(b) + T50 * p + TINY
 
-    def model_cmp(name, params, p, fd, line, keys, sample=False, t=T50, hist=None):
+    def model_cmp(name, params, p, fd, line, keys, sample=False, t=T50, hist=None, rel=REL):
         hs = hist.snap() if hist is not None else None
 
         def fn(ans):
@@ -308,7 +321,7 @@ def run(ctx):
                 ctx.cmp(name, rep, 'distribution', ans)
                 return
             md = [tokq(t) for t in ans.split()]
-            if not close_dist(F(p), fd, md, t):
+            if not close_dist(F(p), fd, md, t, rel):
                 if 'acc' in keys:
                     viol(keys['acc'], 'implementation differs from the exact model by more than the tolerance', rep)
                 else:
@@ -542,7 +555,7 @@ def run(ctx):
         r = [C3 + abs(pf) * (end[k] - C3) for k in range(3)]
         return L, N, r
 
-    def slice_case(lim, pos, p, kind, sample=False, inst=None, hist=None):
+    def slice_case(lim, pos, p, kind, sample=False, inst=None, hist=None, rel=REL):
         try:
             m = CenterSliceErrorModel(lim, pos) if inst is None else inst
         except Exception as e:  # noqa
@@ -560,20 +573,21 @@ def run(ctx):
         keys = {'negI': 'slice-negative-pI-at-p1'}
         if pos <= -1 + 2.0 ** -50:
             keys['negXYZ'] = 'slice-neglim-negative-entry'
-        fd = direct_common('slice', params, p, d, keys, hist=hist)
+        t = T50 if rel == REL else rel      # float32 limits: the ratio sums to 1 in binary32 only
+        fd = direct_common('slice', params, p, d, keys, t=t, hist=hist)
         if fd is None:
             return
         pf = F(p)
         L, N, r = slice_expected(lim, pos)
         for i in (1, 2, 3):
-            if not relclose(fd[i], r[i - 1] * pf, pf):
+            if not relclose(fd[i], r[i - 1] * pf, pf, rel):
                 viol('slice-line', 'Pr(%s) is not p times the point at position pos on the centre-limit line' % LET[i], rep)
                 break
         model_cmp('slice', params, p, fd,
                   'slice %s %s %s %s %s' % (qtok(F(lim[0])), qtok(F(lim[1])), qtok(F(lim[2])), qtok(F(pos)), qtok(pf)),
-                  {}, sample=sample, hist=hist)
+                  {}, sample=sample, t=t, hist=hist, rel=rel)
 
-    def slice_attrs(lim, pos, inst=None, hist=None, order=('lim', 'neg_lim', 'ratio')):
+    def slice_attrs(lim, pos, inst=None, hist=None, order=('lim', 'neg_lim', 'ratio'), rel=REL):
         """the attributes named in `order`, read in that order (from a fresh object, or from a live one inside a
         history), against the documented geometry and the model"""
         m = CenterSliceErrorModel(lim, pos) if inst is None else inst
@@ -599,16 +613,17 @@ def run(ctx):
             except (ValueError, OverflowError):
                 viol('slice-attrs', '%s has a non-finite entry' % k, rep)
                 return
-            if len(vals[k]) != 3 or any(abs(a - b) > REL * abs(b) + T50 for a, b in zip(vals[k], want)):
+            if len(vals[k]) != 3 or any(abs(a - b) > rel * abs(b) + T50 for a, b in zip(vals[k], want)):
                 viol('slice-attrs', 'attribute %s is not the documented point' % k, rep)
         # direct geometric statement: neg_lim on the boundary, centre strictly between lim and neg_lim
         if 'neg_lim' in vals and 'lim' in vals:
             n_, l_ = vals['neg_lim'], vals['lim']
-            if abs(sum(n_) - 1) > T50 or min(n_) < -T50 or min(abs(v) for v in n_) > T50:
+            tg = T50 if rel == REL else rel
+            if abs(sum(n_) - 1) > tg or min(n_) < -tg or min(abs(v) for v in n_) > tg:
                 viol('slice-attrs', 'neg_lim is not on the boundary of the triangle', rep)
             cr = [(l_[1] - C3) * (n_[2] - C3) - (l_[2] - C3) * (n_[1] - C3), (l_[2] - C3) * (n_[0] - C3) - (l_[0] - C3) * (n_[2] - C3)]
             dotp = sum((l_[k] - C3) * (n_[k] - C3) for k in range(3))
-            if any(abs(c) > 8 * T50 for c in cr) or dotp >= 0:
+            if any(abs(c) > 8 * tg for c in cr) or dotp >= 0:
                 viol('slice-attrs', 'lim, centre, neg_lim are not collinear with the centre in between', rep)
 
         def fn(ans):
@@ -619,7 +634,7 @@ def run(ctx):
             names = ('lim', 'neg_lim', 'ratio')
             flat = [F(float(v)) for k in names if k in got for v in got[k]]
             mv = [v for i, k in enumerate(names) if k in got for v in mv[3 * i:3 * i + 3]]
-            if len(flat) != len(mv) or any(abs(a - b) > REL * abs(b) + T50 for a, b in zip(flat, mv)):
+            if len(flat) != len(mv) or any(abs(a - b) > rel * abs(b) + T50 for a, b in zip(flat, mv)):
                 ctx.cmp('slice-attrs', rep, ' '.join(qtok(v) for v in flat), ans)
         ask('sliceattrs %s %s %s %s' % (qtok(F(lim[0])), qtok(F(lim[1])), qtok(F(lim[2])), qtok(F(pos))), fn)
 
@@ -723,15 +738,20 @@ def run(ctx):
         return {'spec': {'model': name}, 'make': cls, 'attrs': {}, 'slice': None, 'rand_p': hist_p, 'names': ['label', 'repr'],
                 'pd': lambda m, p, h: simple_case(name, cls, tok, shape, p, 'history-pd', inst=m, hist=h)}
 
-    def desc_biased(bias, axis):
-        return {'spec': {'model': 'biased', 'bias': bias, 'bias_hex': float(bias).hex(), 'axis': axis},
-                'make': lambda: BiasedDepolarizingErrorModel(bias, axis), 'attrs': {'bias': bias, 'axis': axis.upper()},
+    SCALARS = {'float': float, 'np.float64': np.float64, 'int': int}
+
+    def desc_biased(bias, axis, as_='float'):
+        return {'spec': {'model': 'biased', 'bias': bias, 'bias_hex': float(bias).hex(), 'axis': axis, 'bias_as': as_},
+                'make': lambda: BiasedDepolarizingErrorModel(SCALARS[as_](bias), axis), 'attrs': {'bias': bias, 'axis': axis.upper()},
                 'slice': None, 'rand_p': hist_p, 'names': ['bias', 'axis', 'label', 'repr'],
                 'pd': lambda m, p, h: biased_case(bias, axis, p, 'history-pd', sample='hist', inst=m, hist=h)}
 
-    def desc_yx(bias):
-        return {'spec': {'model': 'biased-yx', 'bias': bias, 'bias_hex': float(bias).hex()},
-                'make': lambda: BiasedYXErrorModel(bias), 'attrs': {'bias': bias}, 'slice': None, 'rand_p': hist_p_yx,
+    def desc_yx(bias, as_='float'):
+        # the F3 fingerprint (yx_pinned) is the binary64 outcome for a Python float bias: other scalar types stay in
+        # the healthy region of p
+        return {'spec': {'model': 'biased-yx', 'bias': bias, 'bias_hex': float(bias).hex(), 'bias_as': as_},
+                'make': lambda: BiasedYXErrorModel(SCALARS[as_](bias)), 'attrs': {'bias': bias}, 'slice': None,
+                'rand_p': hist_p_yx if as_ == 'float' else (lambda: rng.uniform(0.01, 0.99)),
                 'names': ['bias', 'label', 'repr'],
                 'pd': lambda m, p, h: yx_case(bias, p, 'history-pd', sample='hist', inst=m, hist=h)}
 
@@ -778,6 +798,32 @@ def run(ctx):
                 ops.append((i_, 'attr', rng.choice(descs[i_]['names'])))
         return ops + final_reads(descs)
 
+    def attr_op(d_, m, arg, hist, ref_i, first_i, rel=REL):
+        """one attribute-read operation of a history: the comma-separated attributes `arg` of the live object m, read
+        in that order, against the documented values (slice geometry: model), the constructor arguments, an unused
+        object with the same parameters, and the first read; the returned values are then overwritten by the caller"""
+        names = arg.split(',')
+        if d_['slice'] is not None and names[0] in ('lim', 'neg_lim', 'ratio'):
+            slice_attrs(d_['slice'][0], d_['slice'][1], inst=m, hist=hist, order=tuple(names), rel=rel)
+        else:
+            ctx.count(None, False, 'history-attr')
+        for nm in names:
+            try:
+                v = repr(m) if nm == 'repr' else getattr(m, nm)
+                r = repr(v)
+            except Exception as e:  # noqa
+                viol('exception', 'reading %s raised %s: %s' % (nm, exc_class(e), e), with_hist(dict(d_['spec'], attribute=nm), hist))
+                continue
+            rep = with_hist(dict(d_['spec'], attribute=nm, got=r), hist)
+            if nm in d_['attrs'] and (v != d_['attrs'][nm] or isinstance(v, str) != isinstance(d_['attrs'][nm], str)):
+                viol('history-attr', 'attribute %s is not the constructor argument' % nm, rep)
+            if nm in ref_i and v != ref_i[nm]:
+                viol('history-attr', '%s differs from that of an unused object with the same parameters (%s)'
+                     % (nm, ref_i[nm]), rep)
+            if first_i.setdefault(nm, r) != r:
+                viol('history-attr', 'attribute %s changed during the history (first read: %s)' % (nm, first_i[nm]), rep)
+            scribble(v)
+
     def run_history(descs, ops, kind):
         hist = Hist([d_['spec'] for d_ in descs])
         ref, insts = [], []
@@ -799,27 +845,7 @@ def run(ctx):
                 scribble(call_pd(m, arg)[0])
                 continue
             hist.ops.append((i_, 'attr', arg))
-            names = arg.split(',')
-            if d_['slice'] is not None and names[0] in ('lim', 'neg_lim', 'ratio'):
-                slice_attrs(d_['slice'][0], d_['slice'][1], inst=m, hist=hist, order=tuple(names))
-            else:
-                ctx.count(None, False, 'history-attr')
-            for nm in names:
-                try:
-                    v = repr(m) if nm == 'repr' else getattr(m, nm)
-                    r = repr(v)
-                except Exception as e:  # noqa
-                    viol('exception', 'reading %s raised %s: %s' % (nm, exc_class(e), e), with_hist(dict(d_['spec'], attribute=nm), hist))
-                    continue
-                rep = with_hist(dict(d_['spec'], attribute=nm, got=r), hist)
-                if nm in d_['attrs'] and (v != d_['attrs'][nm] or isinstance(v, str) != isinstance(d_['attrs'][nm], str)):
-                    viol('history-attr', 'attribute %s is not the constructor argument' % nm, rep)
-                if nm in ref[i_] and v != ref[i_][nm]:
-                    viol('history-attr', '%s differs from that of an unused object with the same parameters (%s)'
-                         % (nm, ref[i_][nm]), rep)
-                if first[i_].setdefault(nm, r) != r:
-                    viol('history-attr', 'attribute %s changed during the history (first read: %s)' % (nm, first[i_][nm]), rep)
-                scribble(v)
+            attr_op(d_, m, arg, hist, ref[i_], first[i_])
 
     def some_ps(k, gen):
         ps = rng.sample(pgrid + endpoints, min(k, len(pgrid) + len(endpoints))) + [gen() for _ in range(max(0, k // 3))]
@@ -846,6 +872,230 @@ def run(ctx):
         if len(ds) > 1 and rng.random() < 0.3:
             ds[1] = ds[0]            # two objects with identical parameters
         run_history(ds, rand_ops(ds, rng.randint(4, 14)), 'history-random')
+
+    # (iii) CONSTRUCTOR ARGUMENTS OWNED BY THE CALLER.  The limit is handed over in every accepted container (tuple,
+    # list, float64 / int64 / float32 ndarray; already summing to exactly 1 or not; pos / bias as float, np.float64 or
+    # int) and stays the caller's object: the caller overwrites / refills it after construction and between calls, builds
+    # several models from one reused buffer (a parameter sweep), with the answers collected only afterwards or in
+    # between.  Every answer and every attribute of every object must be what the model says for the values the
+    # argument held AT CONSTRUCTION TIME (snapshot semantics: ErrorModels/DistEnds.v, section World), and the
+    # implementation must never write into the caller's object.  Expected values: slice_expected / the engine on the
+    # snapshot; nothing is taken from another implementation object except label/repr of an unused twin.
+    DT = {'f64': np.float64, 'i64': np.int64, 'f32': np.float32}
+    CONTAINERS = ('tuple', 'list', 'f64', 'i64', 'f32')
+    SL_NAMES = ['pos', 'label', 'repr', 'lim', 'neg_lim', 'ratio', 'ratio,lim', 'lim,neg_lim,ratio', 'ratio,neg_lim,lim']
+    PURE = {0: BitFlipErrorModel, 1: BitPhaseFlipErrorModel, 2: PhaseFlipErrorModel}
+
+    def box(c, vals):
+        if c == 'tuple':
+            return tuple(vals)
+        if c == 'list':
+            return list(vals)
+        return np.array(vals, dtype=DT[c])
+
+    def content(c, obj):
+        """what the caller's object holds now, as exact Python numbers"""
+        if c in DT:
+            return tuple(int(v) if c == 'i64' else float(v) for v in obj)
+        return tuple(obj)
+
+    def same_content(a, b):
+        return len(a) == len(b) and all(type(x) is type(y) and (x == y or (x != x and y != y)) for x, y in zip(a, b))
+
+    def vtok(v):
+        return v if isinstance(v, int) else float(v).hex()
+
+    def arg_lim(c, normalised):
+        """an admissible limit whose entries are exactly representable in container c; `normalised`: the entries
+        already sum to exactly 1 (nothing is left for the constructor to do)"""
+        if c == 'i64':
+            zeros = rng.sample(range(3), 2 if normalised else rng.choice([1, 2]))
+            return tuple(0 if i in zeros else (1 if normalised else rng.randint(1, 9)) for i in range(3))
+        if not normalised:
+            lim = rand_lim()
+            if c == 'f64':
+                lim = tuple(float(v) for v in lim)
+            elif c == 'f32':
+                lim = tuple(float(np.float32(v)) for v in lim)
+            return lim
+        nz = rng.sample(range(3), rng.choice([1, 2, 2, 2]))
+        if len(nz) == 1:
+            one = 1.0 if c in DT else rng.choice([1, 1.0])
+            return tuple(one if i == nz[0] else (0.0 if c in DT else rng.choice([0, 0.0])) for i in range(3))
+        m = rng.randint(1, 20)
+        w = rng.randrange(1, 2 ** m) / 2 ** m if (c == 'f32' or rng.random() < 0.5) else rng.random()
+        lim = [0.0, 0.0, 0.0]
+        lim[nz[0]], lim[nz[1]] = w, 1.0 - w
+        return tuple(lim)
+
+    def garbage(c):
+        """what a caller may put into its own buffer afterwards: the next limit of a sweep, or anything else"""
+        r = rng.randrange(6)
+        if r < 3:
+            return arg_lim(c, r == 0)
+        if c == 'i64':
+            return rng.choice([(7, 7, 7), (0, 0, 0), (-1, 0, 2)])
+        return rng.choice([(7.0, 7.0, 7.0), (0.0, 0.0, 0.0), (float('nan'), 0.0, 1.0), (-1.0, 0.0, 2.0), (float('inf'), 0.0, 0.0)])
+
+    def arg_pos():
+        pos = rng.choice(fixed_pos + (rand_pos(), rng.uniform(0, 1), 1.0, 0.5, 0.25))
+        return pos, rng.choice(['float', 'np.float64'] + (['int'] * 2 if pos in (0.0, 1.0, -1.0) else []))
+
+    def run_arg_history(containers, plan, kind):
+        """plan: ('fill', b, vals) the caller (re)writes its buffer b | ('new', i, b, pos, pos_as) object i is constructed
+        from buffer b as it is now | ('pd', i, p) | ('attr', i, names).  Objects are numbered in order of construction."""
+        hist = Hist([])
+        hist.buffers = [{'container': c} for c in containers]
+        B, last, objs = [None] * len(containers), [None] * len(containers), {}
+        ctx.count(('history', hist.hid), True, kind)
+
+        def check_buffers(after):
+            for b, c in enumerate(containers):
+                if B[b] is not None and not same_content(content(c, B[b]), last[b]):
+                    viol('caller-argument-modified', "the implementation wrote into the caller's argument object (%s)" % after,
+                         with_hist({'model': 'slice', 'buffer': b, 'container': c, 'caller_wrote': [repr(v) for v in last[b]],
+                                    'holds_now': [repr(v) for v in content(c, B[b])]}, hist))
+                    last[b] = content(c, B[b])
+
+        for op in plan:
+            if op[0] == 'fill':
+                _, b, vals = op
+                c = containers[b]
+                if B[b] is None or c == 'tuple':
+                    B[b] = box(c, vals)
+                else:
+                    B[b][:] = list(vals)
+                last[b] = content(c, B[b])
+                hist.ops.append((b, 'fill', [vtok(v) for v in vals]))
+                ctx.count(None, False, 'argown-fill')
+                continue
+            if op[0] == 'new':
+                _, i_, b, pos, pos_as = op
+                c = containers[b]
+                snap = last[b]                                     # the values at construction time
+                assert i_ == len(hist.specs) and documented_slice_vals(snap)
+                inexact32 = c == 'f32' and not pow2(sum(F(v) for v in snap))
+                if inexact32 and pos < 0:
+                    # NumPy normalises a float32 array in binary32 (relative error 2^-24 in lim), and the opposite limit
+                    # amplifies that without bound when lim is near the middle of an edge: negative positions and
+                    # neg_lim reads only for float32 limits whose normalisation is exact
+                    pos = -pos
+                spec = {'model': 'slice', 'lim': list(snap), 'pos': pos, 'pos_hex': float(pos).hex(), 'buffer': b,
+                        'container': c, 'pos_as': pos_as}
+                hist.specs.append(spec)
+                hist.ops.append((i_, 'new', b))
+                ctx.count(('argown-new', hist.hid, i_), pos != 0, 'argown-new')
+                objs[i_] = None
+                try:
+                    m = CenterSliceErrorModel(B[b], SCALARS[pos_as](pos))
+                    u = CenterSliceErrorModel(box(c, snap), SCALARS[pos_as](pos))      # an unused twin from its own copy
+                except Exception as e:  # noqa
+                    if c in DT and isinstance(e, (TypeError, ValueError)):
+                        # an ndarray is not the documented "3-tuple": a clean rejection is recorded, not reported
+                        ctx.extra['ndarray_lim_rejected'] = ctx.extra.get('ndarray_lim_rejected', 0) + 1
+                    else:
+                        viol('ctor-domain', 'documented parameters rejected: %s' % exc_class(e), with_hist(spec, hist))
+                    continue
+                check_buffers('construction')
+                objs[i_] = {'m': m, 'snap': snap, 'pos': pos, 'rel': REL32 if c == 'f32' else REL, 'first': {}, 'no_neg': inexact32,
+                            'ref': {'label': u.label, 'repr': repr(u)},
+                            'd': {'spec': spec, 'attrs': {'pos': pos}, 'slice': (snap, pos)}}
+                continue
+            o = objs.get(op[1])
+            if o is None:
+                continue
+            m, snap, pos, rel = o['m'], o['snap'], o['pos'], o['rel']
+            if op[0] == 'pd':
+                p = op[2]
+                hist.ops.append((op[1], 'pd', float(p).hex()))
+                slice_case(snap, pos, p, 'argown-pd', sample=('hist' if rel == REL else False), inst=m, hist=hist, rel=rel)
+                d, e = call_pd(m, p)
+                fs = frac_dist(d) if e is None else None
+                if fs is not None:
+                    rep = with_hist(dict(o['d']['spec'], p=p, p_hex=float(p).hex(), got=[repr(v) for v in d]), hist)
+                    nzs = [k for k in range(3) if snap[k] != 0]
+                    if pos == 1 and len(nzs) == 1:
+                        fp = frac_dist(PURE[nzs[0]]().probability_distribution(p))
+                        if fs[1:] != fp[1:] or abs(fs[0] - fp[0]) > T50:
+                            viol('special-unit-lim', 'a unit limit at pos 1 is not the pure single-Pauli model', rep)
+                    if pos == 0 and not close_dist(F(p), fs, frac_dist(DepolarizingErrorModel().probability_distribution(p))):
+                        viol('special-pos0', 'pos 0 is not the depolarizing distribution', rep)
+                scribble(d)
+                check_buffers('probability_distribution')
+            else:
+                names = op[2]
+                if o['no_neg']:
+                    names = ','.join(nm for nm in names.split(',') if nm != 'neg_lim') or 'lim'
+                hist.ops.append((op[1], 'attr', names))
+                attr_op(o['d'], m, names, hist, o['ref'], o['first'], rel=rel)
+                check_buffers('attribute read')
+
+    def pow2(x):
+        return x > 0 and (x.numerator & (x.numerator - 1)) == 0 and (x.denominator & (x.denominator - 1)) == 0
+
+    def documented_slice_vals(v):
+        return (len(v) == 3 and all(isinstance(x, (int, float)) and math.isfinite(x) and x >= 0 for x in v)
+                and sum(1 for x in v if x != 0) in (1, 2))
+
+    def queries(i_, n):
+        out = []
+        for _ in range(n):
+            out.append(('pd', i_, hist_p()) if rng.random() < 0.55 else ('attr', i_, rng.choice(SL_NAMES)))
+        return out
+
+    def plan_single(c, normalised):
+        """one object; its argument is overwritten by the caller after construction and between calls"""
+        plan = [('fill', 0, arg_lim(c, normalised)), ('new', 0, 0) + arg_pos()]
+        for _ in range(rng.randint(2, 6)):
+            plan += [('fill', 0, garbage(c))] if rng.random() < 0.3 else queries(0, 1)
+        plan += [('fill', 0, garbage(c)), ('pd', 0, hist_p())] + queries(0, 2)
+        return plan + [('attr', 0, nm) for nm in rng.sample(SL_NAMES, 4)] + [('attr', 0, 'lim')]
+
+    def plan_sweep(cs, normalised, k, interleave):
+        """k objects built one after the other from reused buffers (refilled in between), queried in between
+        (interleave) or only after the last one has been built (results collected before use)"""
+        plan, filled = [], set()
+        shared = arg_pos() if rng.random() < 0.5 else None
+        for j in range(k):
+            b = rng.randrange(len(cs))
+            if b not in filled or rng.random() < 0.85:         # sometimes two objects from the same unchanged content
+                plan.append(('fill', b, arg_lim(cs[b], normalised if rng.random() < 0.8 else not normalised)))
+                filled.add(b)
+            plan.append(('new', j, b) + (shared or arg_pos()))
+            if interleave and rng.random() < 0.6:
+                plan += queries(rng.randrange(j + 1), rng.randint(1, 2))
+        for b in filled:
+            if rng.random() < 0.6:
+                plan.append(('fill', b, garbage(cs[b])))
+        order = list(range(k))
+        rng.shuffle(order)
+        for j in order:
+            plan += [('pd', j, hist_p())] + queries(j, 1) + [('attr', j, rng.choice(['lim', 'ratio,lim', 'repr', 'lim,neg_lim,ratio']))]
+        return plan
+
+    for c in CONTAINERS:
+        # the documented special cases through every container: unit limits at pos 1, the buffer recycled afterwards
+        for ax in range(3):
+            unit = tuple((1 if c in ('i64', 'tuple') else 1.0) if k == ax else (0 if c in ('i64', 'tuple') else 0.0) for k in range(3))
+            other = tuple(unit[(k + 1) % 3] for k in range(3))
+            run_arg_history([c], [('fill', 0, unit), ('new', 0, 0, 1.0, rng.choice(['float', 'int', 'np.float64'])), ('fill', 0, other),
+                                  ('pd', 0, hist_p()), ('attr', 0, 'lim'), ('fill', 0, garbage(c)), ('pd', 0, rng.choice([0.1, 0.4, 1.0]))]
+                            + queries(0, 2), 'argown-unit')
+        for normalised in (True, False):
+            for _ in range(3 * scale):
+                run_arg_history([c], plan_single(c, normalised), 'argown-single')
+            for _ in range(2 * scale):
+                cs = [c] if rng.random() < 0.7 else [c, rng.choice(CONTAINERS)]
+                run_arg_history(cs, plan_sweep(cs, normalised, rng.randint(2, 5), True), 'argown-sweep')
+                run_arg_history(cs, plan_sweep(cs, normalised, rng.randint(2, 5), False), 'argown-collect')
+    # scalar parameters in the other numeric types a sweep produces (np.linspace gives np.float64; range gives int)
+    for as_ in ('np.float64', 'int'):
+        for bias in (10.0, 1.0, 3.0, 100.0, 1e12) + ((0.5, 1 / 3, 1e-6) if as_ != 'int' else ()):
+            ds = [desc_biased(bias, rng.choice('XYZxyz'), as_)]
+            run_history(ds, sweep_ops(ds, some_ps(ctx.pick(6, 22), hist_p)), 'argown-scalar')
+        for bias in (0.0, 1.0, 2.0, 10.0) + ((0.5, 0.1) if as_ != 'int' else ()):
+            ds = [desc_yx(bias, as_)]
+            run_history(ds, sweep_ops(ds, [rng.uniform(0.01, 0.99) for _ in range(ctx.pick(5, 15))]), 'argown-scalar')
 
     lap('histories')
     # ---- 5. constructor domains ----------------------------------------------------------------------
@@ -966,6 +1216,40 @@ def run(ctx):
         except Exception:  # noqa
             pass
 
+    # out-of-domain VALUES are rejected whatever the container they arrive in
+    nan_, inf_ = float('nan'), float('inf')
+    for c in CONTAINERS:
+        for vals in ((0, 0, 0), (1, 1, 1), (2, 3, 4), (-1, 0, 0), (1, -1, 0), (0, 0, -3), (nan_, 0, 0), (0, inf_, 1), (1, 0), (1, 0, 0, 0), ()):
+            if c == 'i64' and any(isinstance(v, float) for v in vals):
+                continue
+            for pos in (0.5, np.float64(-0.25)):
+                arg = box(c, vals)
+                before = content(c, arg)
+                got = ctor_result(lambda: CenterSliceErrorModel(arg, pos))
+                ctx.count(None, False, 'ctor-slice-container')
+                rep = {'model': 'slice', 'container': c, 'lim': [repr(v) for v in vals], 'pos': repr(pos), 'got': got}
+                if got == 'ok':
+                    signless = any(v != v or v < 0 or v == inf_ for v in vals)
+                    viol('F4-slice-lim-sign-accepted' if signless else 'ctor-domain',
+                         'out-of-domain limit accepted when passed as %s' % c, rep)
+                elif got not in ('ValueError', 'TypeError'):
+                    viol('ctor-domain', 'constructor raises an undocumented exception class', rep)
+                if not same_content(content(c, arg), before):
+                    viol('caller-argument-modified', "the constructor wrote into the caller's argument object", rep)
+    for c in CONTAINERS:
+        for bad_pos in (1.5, np.float64(-1.0000001), nan_, np.float64(nan_), None):
+            got = ctor_result(lambda: CenterSliceErrorModel(box(c, (0, 1, 1)), bad_pos))
+            ctx.count(None, False, 'ctor-slice-container')
+            if got not in ('ValueError', 'TypeError'):
+                viol('ctor-domain', 'out-of-domain pos %r with lim as %s: %s' % (bad_pos, c, got),
+                     {'model': 'slice', 'container': c, 'lim': [0, 1, 1], 'pos': repr(bad_pos), 'got': got})
+    for b in (np.float64(0.0), np.float64(-1.0), np.float64(nan_), np.float64(inf_)):
+        for got, nm in ((ctor_result(lambda: BiasedDepolarizingErrorModel(b, 'X')), 'biased'),) + (
+                () if b == 0 else ((ctor_result(lambda: BiasedYXErrorModel(b)), 'biased-yx'),)):
+            ctx.count(None, False, 'ctor-scalar-type')
+            if got not in ('ValueError', 'TypeError'):
+                viol('ctor-domain', 'out-of-domain bias %r: %s' % (b, got), {'model': nm, 'bias': repr(b), 'got': got})
+
     lap('ctor')
     # ---- correspondence with the extracted model -----------------------------------------------------------
     out = ctx.model('c16', req)
@@ -1024,12 +1308,16 @@ def replay(path):
     print(json.dumps(d, indent=1))
     r = d.get('replay', {})
 
+    import numpy as np
+    scalars = {'float': float, 'np.float64': np.float64, 'int': int}
+    dt = {'f64': np.float64, 'i64': np.int64, 'f32': np.float32}
+
     def build(sp):
         name = sp.get('model')
         if name == 'biased':
-            return BiasedDepolarizingErrorModel(float.fromhex(sp['bias_hex']), sp['axis'])
+            return BiasedDepolarizingErrorModel(scalars[sp.get('bias_as', 'float')](float.fromhex(sp['bias_hex'])), sp['axis'])
         if name == 'biased-yx':
-            return BiasedYXErrorModel(float.fromhex(sp['bias_hex']))
+            return BiasedYXErrorModel(scalars[sp.get('bias_as', 'float')](float.fromhex(sp['bias_hex'])))
         if name == 'slice':
             return CenterSliceErrorModel(tuple(sp['lim']), float.fromhex(sp['pos_hex']) if 'pos_hex' in sp else sp['pos'])
         return {'depolarizing': DepolarizingErrorModel, 'bit-flip': BitFlipErrorModel, 'phase-flip': PhaseFlipErrorModel,
@@ -1039,9 +1327,26 @@ def replay(path):
         # an operation history over live objects: rebuild the pool and run the operations again, in order
         try:
             h = r['history']
-            pool = [build(sp) for sp in h['instances']]
+            owned = 'buffers' in h      # caller-owned arguments: objects are built by 'new' operations from live buffers
+            pool = [None if owned else build(sp) for sp in h['instances']]
+            bufs = [None] * len(h.get('buffers', []))
             for k, (i, what, arg) in enumerate(h['ops']):
                 try:
+                    if what == 'fill':
+                        c = h['buffers'][i]['container']
+                        vals = [float.fromhex(t) if isinstance(t, str) else t for t in arg]
+                        if bufs[i] is None or c == 'tuple':
+                            bufs[i] = tuple(vals) if c == 'tuple' else list(vals) if c == 'list' else np.array(vals, dtype=dt[c])
+                        else:
+                            bufs[i][:] = vals
+                        print('now: op %d caller fills buffer %d (%s) -> %r' % (k, i, c, bufs[i]))
+                        continue
+                    if what == 'new':
+                        sp = h['instances'][i]
+                        pool[i] = CenterSliceErrorModel(bufs[arg], scalars[sp.get('pos_as', 'float')](float.fromhex(sp['pos_hex'])))
+                        print('now: op %d object %d = CenterSliceErrorModel(buffer %d, %r); constructed from lim %r; the buffer '
+                              'holds %r afterwards' % (k, i, arg, pool[i].pos, sp['lim'], bufs[arg]))
+                        continue
                     if what == 'pd':
                         out = pool[i].probability_distribution(float.fromhex(arg))
                     else:
